@@ -710,6 +710,31 @@ func genFMA(r *hx.RNG, l hx.Limits) *opCase {
 			}
 			k.class += "-underflow"
 		}
+	case shape < 74: // u cancels the tail of a sparse product: what is left is short, and exact at a precision far below
+		// the product's length although u lies dozens of digits below its leading digit
+		x = oracle.Val{Form: oracle.Finite, Neg: r.Bool(), Coef: sparseCoef(r, r.Range(20, 80)), Exp: int64(r.Range(-40, 40))}
+		y = oracle.Val{Form: oracle.Finite, Neg: r.Bool(), Coef: sparseCoef(r, r.Range(20, 80)), Exp: int64(r.Range(-40, 40))}
+		prod = new(big.Int).Mul(x.Coef, y.Coef)
+		pe, dp = x.Exp+y.Exp, int(oracle.Digits(prod))
+		pneg = x.Neg != y.Neg
+		t := int64(r.Range(1, dp-1))
+		low := new(big.Int).Rem(prod, oracle.Pow10(t))
+		if low.Sign() == 0 {
+			low.SetInt64(int64(r.Range(1, 9)))
+		}
+		k.u = oracle.Val{Form: oracle.Finite, Neg: !pneg, Coef: low, Exp: pe}
+		if r.Chance(30) { // ... or completes it to the next unit of that place
+			k.u = oracle.Val{Form: oracle.Finite, Neg: pneg, Coef: new(big.Int).Sub(oracle.Pow10(t), low), Exp: pe}
+		}
+		rest := oracle.FMA(x, y, k.u, 0)
+		k.p = int64(r.Range(1, 40))
+		if d, ok := rest.Ex.(oracle.ExDec); ok && !rest.Special && !rest.NaN && d.Coef.Sign() != 0 {
+			k.p = (oracle.Val{Form: oracle.Finite, Coef: d.Coef}).MinPrec() + int64(r.Range(-1, 2))
+			if k.p < 1 {
+				k.p = 1
+			}
+		}
+		k.class = "tail-cancel"
 	case shape < 80: // the sum lands on a rounding-aimed digit string: u = T - x*y
 		if p > 300 {
 			p = 300
@@ -805,6 +830,22 @@ func fmaProductOutOfRange(k *opCase) bool {
 	}
 	le := oracle.Digits(new(big.Int).Mul(k.x.Coef, k.y.Coef)) + k.x.Exp + k.y.Exp
 	return le < oracle.MinExp || le > oracle.MaxExp
+}
+
+// sparseCoef returns n digits that are mostly zeros with a few digits set (first one non-zero).
+func sparseCoef(r *hx.RNG, n int) *big.Int {
+	d := make([]byte, n)
+	for i := range d {
+		d[i] = '0'
+	}
+	d[0] = '1' + byte(r.Intn(9))
+	for k := r.Range(0, 3); k > 0; k-- {
+		d[r.Intn(n)] = '1' + byte(r.Intn(9))
+	}
+	if r.Bool() {
+		d[n-1] = '1' + byte(r.Intn(9))
+	}
+	return hx.CoefOf(d)
 }
 
 // fmaKnownOutcome models the pinned tree's behaviour behind known finding D15: FMA forms the product within the
